@@ -91,7 +91,7 @@ impl Family for A5 {
         // secrets seen so far, by kind
         let mut seen: Vec<(&'static str, usize, Vec<u8>)> = vec![];
         let mut drawn_before: Vec<Vec<u8>> = vec![];
-        let mode = Mode::Key { s_priv: s.s_priv.clone(), r_priv: s.r_priv.clone(), e_priv: None, payload: None };
+        let mode = Mode::Key { s_priv: s.s_priv.clone(), r_priv: s.r_priv.clone(), e_priv: None, payload: None, omit_e_pub: false };
         for (oi, op) in s.ops.iter().enumerate() {
             let draws_start = ent.as_ref().map(|e| e.borrow().draws.len()).unwrap_or(0);
             let mut secrets: Vec<(&'static str, Vec<u8>)> = vec![];
